@@ -597,6 +597,11 @@ func (e *Engine) skipTo(c *run) int64 {
 		return c.startSeq + 1
 	case types.SkipToFirst, types.SkipToLast, types.SkipToVariable:
 		if s := seqOfLabel(c, e.spec.SkipSymbol, e.spec.Skip == types.SkipToFirst, e.subsets); s >= 0 {
+			// resume AT the row mapped to the variable (it may start the next match); only when that
+			// is the match's own first row resume after it, or the same match would be found forever
+			if s > c.startSeq {
+				return s
+			}
 			return s + 1
 		}
 	}
